@@ -6,9 +6,9 @@ V = os.path.dirname(os.path.dirname(os.path.abspath(__file__)))
 L1NOTE = "Trusted: TLC; the in-binary libc interposer; parse.rs (decodes the pinned layout, judges nothing); the placement of the add-only hook points; bounded model constants (see evidence)."
 CLAIMED = {
  "C01": dict(cat="model_checking", ref="DESIGN.md 6 (C01), 3.1, 4.4",
-   text="L0 reference semantics (KVOps/KVStore.tla) model-checked by TLC; TLC-enumerated behaviours (every function Active -> initial kind x action x ending, over tree-shape profiles incl. dirty nested buckets below merging interior nodes and multi-extension growth) replayed on the real code with every result compared, and seeded random histories of the real code trace-validated by TLC against the same specification.",
+   text="L0 reference semantics (KVOps/KVStore.tla) model-checked by TLC; TLC-enumerated behaviours (every function Active -> initial kind x action x ending, over tree-shape profiles incl. dirty nested buckets below merging interior nodes and multi-extension growth) replayed on the real code with every result compared, and seeded random histories of the real code trace-validated by TLC against the same specification. BTree.tla leg (DESIGN.md 12.5): the rebalance / spill / cursor code transcribed operator by operator and model-checked (MC_BTree) over every short history on seed trees of up to three levels; every generated history is replayed into the real code against the reference map and the page structure found in the file is compared with the model's.",
    note="Trusted: TLC, harness projection (exec.rs), the correspondence Do <-> public API; bounded key universes (<= 48 keys per bucket, depth <= 3).",
-   tech="TLA+ L0 spec + TLC; spec->impl behaviour replay and impl->spec trace validation"),
+   tech="TLA+ L0 spec + TLC; spec->impl behaviour replay and impl->spec trace validation; transcribed B+tree model (BTree.tla) with exact structure conformance"),
  "C02": dict(cat="model_checking", ref="DESIGN.md 6 (C02), 3.2, 4.6",
    text="PageStore.tla (commit protocol, cache vs disk, Kill, PowerLoss over every subset of unsynced writes with tears) model-checked: AllImagesRecoverable / AfterCrash / durability hold for the protocol as repaired and fail for the pinned order (vacuity guard). Recorded commits of the real code are validated against the protocol (Trace_Page) and Gen_Crash enables Kill/PowerLoss at every position of the recorded write sequence; every abstract recipe is concretised (sector and word tears) and reopened by the real code: exactly pre or post, DB::check ok, further commit works.",
    note=L1NOTE + " Power-loss model as in the property text.", tech="TLA+ L1 spec + TLC; trace validation of the commit protocol; TLC-generated crash recipes replayed as file images"),
@@ -22,14 +22,14 @@ CLAIMED = {
    text="Threads.tla model-checked: OneWriter, NoLostUpdate, FinalCount, ReaderNotBlockedByWriter, deadlock freedom, and Progress under weak fairness. Bounded-preemption schedules of 2-3 read-modify-write writer threads with readers (incl. a commit that grows the file) are forced on real threads: overlap flag, final counter, every thread finishes, a thread the model says can proceed must not stay blocked; seeded random schedules beyond the bound.",
    note="Trusted: as C04; std RwLock modelled as writer-preferring; deadlock = a thread not finished 10 s after the schedule / blocked 2 s although enabled.", tech="TLA+ L2 spec + TLC (safety + liveness); TLC-generated schedules forced on real threads"),
  "C05": dict(cat="model_checking", ref="DESIGN.md 6 (C05), 4.3",
-   text="Every page image the library writes is decoded by an independent parser and TLC (Trace_Page) evaluates the structural and accounting predicates at every header write, cross-checks the final file, and DB::check() must agree; histories are TLC-generated (nested bucket deletions at several levels in one transaction, merges/splits on three-level trees) and random.",
-   note=L1NOTE, tech="TLA+ predicates over decoded pages evaluated by TLC on recorded executions"),
+   text="Every page image the library writes is decoded by an independent parser and TLC (Trace_Page) evaluates the structural and accounting predicates at every header write, cross-checks the final file, and DB::check() must agree; histories are TLC-generated (nested bucket deletions at several levels in one transaction, merges/splits on three-level trees) and random. BTree.tla leg (DESIGN.md 12.5): the rebalance / spill / cursor code transcribed operator by operator and model-checked (MC_BTree) over every short history on seed trees of up to three levels; every generated history is replayed into the real code against the reference map and the page structure found in the file is compared with the model's.",
+   note=L1NOTE, tech="TLA+ predicates over decoded pages evaluated by TLC on recorded executions; transcribed B+tree model (BTree.tla) with exact structure conformance"),
  "C06": dict(cat="model_checking", ref="DESIGN.md 6 (C06)",
    text="KVStore (OnlyCommitChanges: an error result or Drop leaves the committed state; mutators on read-only transactions yield ReadOnlyTx) and PageStore (no write outside a commit; Rollback changes nothing shared) model-checked. TLC-generated transactions (bucket deletions at several levels, deletes on three-level trees) are abandoned, re-run and committed; random histories with frequent rollbacks, failing calls, read-only mutators and re-opens with other options are validated by Trace_KV and Trace_Page: no write or header write outside a commit, file hash and length unchanged around every rollback / read-only transaction / failed call / re-open, shared free list untouched, later allocations exactly as without the abandoned transaction.",
    note=L1NOTE, tech="TLA+ L0+L1 specs + TLC; trace validation incl. file hashes"),
  "C07": dict(cat="model_checking", ref="DESIGN.md 6 (C07)",
-   text="L0 transaction view: the full read API (get, scan, seek, re-seek, ranges, buckets, kv_pairs, counter, after-the-end probe) is issued after every single operation of a write transaction, in TLC-generated behaviours over tree-shape profiles and in random traces, and compared with KVOps!Do on the transaction's own view.",
-   note="Trusted: TLC, exec.rs projection.", tech="TLA+ L0 spec + TLC; behaviour replay with read-back after every op; trace validation"),
+   text="L0 transaction view: the full read API (get, scan, seek, re-seek, ranges, buckets, kv_pairs, counter, after-the-end probe) is issued after every single operation of a write transaction, in TLC-generated behaviours over tree-shape profiles and in random traces, and compared with KVOps!Do on the transaction's own view. BTree.tla leg (DESIGN.md 12.5): the rebalance / spill / cursor code transcribed operator by operator and model-checked (MC_BTree) over every short history on seed trees of up to three levels; every generated history is replayed into the real code against the reference map and the page structure found in the file is compared with the model's.",
+   note="Trusted: TLC, exec.rs projection.", tech="TLA+ L0 spec + TLC; behaviour replay with read-back after every op; trace validation; transcribed B+tree model (BTree.tla) with exact structure conformance"),
  "C08": dict(cat="model_checking", ref="DESIGN.md 6 (C08)",
    text="Cursor sub-machine of L0 (SeekResults allows either neighbour for an absent key; ranges for all bound kinds; filters; next() after exhaustion) model-checked (SeekSound, AllSorted) and bound by TLC-generated exhaustive query sets: every seek / re-seek key and every pair of bounds over the universe on empty, single-leaf, two- and three-level buckets, committed and mid-transaction.",
    note="Trusted: TLC, exec.rs projection.", tech="TLA+ L0 spec + TLC; exhaustive query generation replayed on the real code"),
